@@ -85,6 +85,22 @@ CLAIMED = {
             "trusted: pyvc, z3, cvc5",
             "contract-based deductive verification: VCs generated from the AST of the real functions and their SQL text, "
             "discharged by z3 / cvc5"),
+    "C14": ("proof",
+            "Rely / guarantee proof for cooperative scheduling on the real handlers: the shared invariant S (highest new "
+            "number written = stored counter = next outbound number - 1, no journal row at or above it) is an obligation at "
+            "every suspension point (awaits of drain() and of the application hooks) and at exit of send_msg and of "
+            "_process_message (every message type), and after every suspension point the shared state is havocked under the "
+            "rely 'other tasks sent any number of new messages'; every new frame is proved to carry a number above everything "
+            "written before and to be journaled without a duplicate error; between taking the number and handing the frame "
+            "to the transport send_msg has no suspension point. One sequential proof per handler covers all interleavings and "
+            "any number of senders. _process_resend breaks S at its suspension points: genuine, replayed with a real second "
+            "sender, recorded as known finding C14-KF1 (redesign).",
+            "DESIGN.md 4/C14 and 9",
+            "assumed: A-COOP (tasks switch only at suspending awaits; which awaits suspend), the rely (other tasks only send "
+            "new messages; a concurrent disconnect is C11's task), induction over the schedule not mechanised, application "
+            "retransmissions through send_msg excluded; journal / encode contracts, hooks, transport as in C05; trusted: pyvc, z3",
+            "contract-based deductive verification (rely / guarantee at suspension points): VCs generated from the AST of "
+            "the real coroutines, discharged by z3"),
     "C02": ("proof",
             "Deductive proof of the framing clauses on the real Codec.encode (tag loop by the append-only rule: any set of "
             "body fields) and on what the real send_msg (encode inlined, every connected state) hands to the transport: the "
